@@ -31,6 +31,11 @@ pub fn gen(prop: &str, seed: u64) -> RunDesc {
         2 => (1u64 << 40) + rng.below(16),
         _ => rng.below(48),
     };
+    // a third of the runs: pop_edges hands its edges back through with_tag(0), as a list that
+    // strips deletion marks does; the stamp of the link travels in the same word
+    if Rng::new(seed ^ 0xA6E).chance(0.35) {
+        cfg.pop_policy = 3;
+    }
     let total = 6 + rng.below(66) as u32; // ticker rounds
     let t_f = rng.below(total as u64) as u32;
     let t_b = rng.below((t_f + 5).min(total) as u64 + 1) as u32;
